@@ -54,7 +54,10 @@ SelectUnits(s, rich) ==
 GroupBase(s) == << [m |-> "from_", src |-> s], Sel(<<Fld(s, "c"), WithAl(Call("SUM", <<Fld(s, "b")>>), "sm")>>), [m |-> "groupby", terms |-> <<Fld(s, "c")>>] >>
 GroupUnits(s) == {<<[m |-> "having", crit |-> Bin(">", Call("SUM", <<Fld(s, "b")>>), Num("1"))]>>,
                   <<[m |-> "having", crit |-> Bin("OR", Bin(">", Call("MAX", <<Fld(s, "a")>>), Num("1")), Bin("=", Fld(s, "c"), Str("x")))]>>,
-                  <<Sel(<<Call("COUNT", <<>>)>>)>>, <<Sel(<<Bin("/", Call("SUM", <<Fld(s, "a")>>), Call("MAX", <<Fld(s, "b")>>))>>)>>,
+                  <<Sel(<<Call("COUNT", <<>>)>>)>>,
+                  <<Sel(<<[k |-> "call", f |-> "SUM", args |-> <<Bin("*", Bin("+", Fld(s, "a"), Num("1")), Fld(s, "b"))>>, dist |-> TRUE]>>)>>,
+                  <<Sel(<<[k |-> "call", f |-> "COUNT", args |-> <<Call("ABS", <<Fld(s, "b")>>)>>, dist |-> TRUE]>>)>>,
+                  <<Sel(<<[k |-> "call", f |-> "COUNT", args |-> <<Fld(s, "b")>>, dist |-> TRUE]>>)>>, <<Sel(<<Bin("/", Call("SUM", <<Fld(s, "a")>>), Call("MAX", <<Fld(s, "b")>>))>>)>>,
                   <<[m |-> "orderby", terms |-> <<WithAl(Call("SUM", <<Fld(s, "b")>>), "sm")>>, dir |-> "DESC"]>>,
                   <<Where(Bin("<", Fld(s, "a"), Num("3")))>>, <<[m |-> "groupby", terms |-> <<Bin("+", Fld(s, "a"), Num("1"))>>]>>}
 
